@@ -95,8 +95,10 @@ def dpss_summary(itp, args, kwargs, node, st):
     Aff.SYM_MIN['K'] = 1
     tap = Num(zero_deg(), (_int_aff(n), kk), False, taint=t)
     tap.role = 'tapers'
+    tap.q = Aff(0)
     ev = Num(zero_deg(), (kk,), False, taint=t)
     ev.role = 'eigenvalues'
+    ev.q = Aff(0)
     ev.nonneg = True
     itp.events.append(('dpss', node, n, nw, k))
     return Tup([tap, ev], mutable=True)
